@@ -28,6 +28,7 @@ import (
 	"sort"
 	"strings"
 	"sync"
+	"sync/atomic"
 
 	"golang.org/x/mod/module"
 	"golang.org/x/mod/semver"
@@ -281,6 +282,8 @@ func main() {
 }
 
 // materialise writes the directory of a store below scratch and returns its path.
+var linkSeq int64
+
 func materialise(c *caseRec, tag string) string {
 	dir := filepath.Join(scratch, fmt.Sprintf("%s-%d-%d", tag, len(c.Items), c.Key))
 	if err := os.MkdirAll(dir, 0o777); err != nil {
@@ -301,6 +304,22 @@ func materialise(c *caseRec, tag string) string {
 				if err := os.MkdirAll(filepath.Dir(fp), 0o777); err != nil {
 					vutil.Fatalf("%v", err)
 				}
+				// in every other directory entry the .mod file and the .go files are symbolic links to files kept elsewhere
+				// (a checkout managed by a tool that links its files in): what the link leads to is the file's content
+				if linked := atomic.AddInt64(&linkSeq, 1)%2 == 0; linked && (strings.HasSuffix(fp, ".go") || strings.HasSuffix(fp, ".mod")) {
+					tdir := filepath.Join(scratch, "link-targets")
+					os.MkdirAll(tdir, 0o777)
+					target := filepath.Join(tdir, fmt.Sprintf("t%d", atomic.AddInt64(&linkSeq, 2)))
+					if err := os.WriteFile(target, vutil.Bytes(f.Data), 0o666); err != nil {
+						vutil.Fatalf("%v", err)
+					}
+					os.Remove(fp)
+					if err := os.Symlink(target, fp); err != nil {
+						vutil.Fatalf("%v", err)
+					}
+					continue
+				}
+				os.Remove(fp)
 				if err := os.WriteFile(fp, vutil.Bytes(f.Data), 0o666); err != nil {
 					vutil.Fatalf("%v", err)
 				}
